@@ -283,6 +283,25 @@ Theorem C03_concrete_committed_root_survives : ∀ H er ec U, collision_free H U
 Proof. exact c_committed_root_survives. Qed.
 Print Assumptions C03_concrete_committed_root_survives.
 
+(* The general form: on ANY closed disk graph dk whose entries are blobs of the universe held by the
+   blob store d, a trie (C02 model, minimal form) whose root node is on disk reopens from d alone to
+   exactly itself.  With C03_concrete_crash_safe (the disk is closed at every crash point; a root whose
+   top node is present ...) this is "every root whose top node is present on disk is fully readable
+   with the committed values"; it applies to the account trie of a state root and, through the storage
+   roots in its leaves (closedness puts them on disk), to every storage trie of that state. *)
+Theorem C03_reopen_from_disk : ∀ (H : list N → list N), (∀ x, length (H x) = 32) →
+  ∀ er ec U, collision_free H U → ∀ (dirty : C02.Model.node → bool) r, r ≠ RCode →
+  ∀ (d : list N → option (list N)) (dk : gmap (list N) (list (list N))),
+  (∀ h a, dk !! h = Some a → ∃ e r', U e r' ∧ H e = h ∧ d h = Some e ∧ a = blob_refs er ec r' e) →
+  closed dk → ∀ t,
+  (∀ c, C02.ProofsB.subnode c t → C02.Model.wfb c = true →
+        C08.Model.item_ok (C02.Model.collapse H c) ∧ U (TrieLink.enc H c) r) →
+  C02.Model.wf_trie t = true → t ≠ C02.Model.Empty →
+  is_Some (dk !! H (TrieLink.enc H t)) → C02.Model.root_hash H t ≠ H [128%N] →
+  C02.ModelB.reopen d (C02.Sem.size t) (H [128%N]) (C02.Model.root_hash H t) = Some t.
+Proof. exact reopen_from_disk. Qed.
+Print Assumptions C03_reopen_from_disk.
+
 (* "Readable with the same value from the disk alone", as a theorem: after any concrete history, once
    NodeDatabase.Commit of the root of a trie t (C02 model, minimal form; known to the database at that
    moment) has run to the end, then after ANY continuation - further commits, write errors, crashes,
